@@ -449,8 +449,9 @@ Definition sig_rel (s : sig) (eo : option err) : Prop :=
   end.
 
 (* the domain of the refinement statement: the reference semantics is defined, and it does not
-   report a control instruction as an error (a control instruction inside a for-else branch;
-   see [RefineFindings]) *)
+   report a control instruction as an error.  (The reference semantics itself no longer does
+   that -- a control instruction in a for-else branch is handed on to the enclosing loops as the
+   signal it is --, so the second clause now only concerns what an include renderer may claim.) *)
 Definition sig_dom (s : sig) : Prop :=
   match s with SNA => False | SErr x => is_ctl x = false | _ => True end.
 
